@@ -16,49 +16,65 @@ Print Assumptions round_unique.
 (* frb_nearest: whenever a buffer is returned, it has the shape of the ranged bounds and each sample p holds the source
    value at the index idx with |idx_i - x_i| <= 1/2 on every source axis (x_i = the linked position of the sample;
    idx_i is the unique such integer when x_i is not at a half), or the fill value (NaN / False) iff that index is
-   outside the source. *)
+   outside the source or the linked position is not a finite number on some axis (idx_i = None). *)
 Theorem frb_nearest : forall W s t w bc bs sh vals,
   frb_core W s t w bc bs = OkArr sh vals ->
   sh = oshape bs /\ length vals = length (all_indices (grid_shape bs)) /\
   forall p, (p < length (all_indices (grid_shape bs)))%nat ->
     let g := nth p (all_indices (grid_shape bs)) [] in
     let d := get_data W s in
-    exists idx : list Z,
+    exists idx : list (option Z),
       length idx = ndim W s /\
       (forall i, (i < ndim W s)%nat ->
          exists e, nth_error (get_links W s t) i = Some (Some e) /\
-                   Qabs (inject_Z (nth i idx 0%Z) - eval e (pos_at bs g)) <= 1 # 2 /\
-                   (forall k, Qabs (inject_Z k - eval e (pos_at bs g)) < 1 # 2 -> nth i idx 0%Z = k)) /\
+                   match eval e (pos_at bs g) with
+                   | Some x => exists k, nth i idx None = Some k /\
+                                         Qabs (inject_Z k - x) <= 1 # 2 /\
+                                         (forall k', Qabs (inject_Z k' - x) < 1 # 2 -> k = k')
+                   | None => nth i idx None = None
+                   end) /\
       nth p vals None =
-        (if forallb (fun i => inrange (nth i idx 0%Z) (nth i (dshape d) 0%nat)) (seq 0 (ndim W s))
-         then nth (flat_index (dshape d) (map Z.to_nat idx)) (src_vals d w) (fill w)
+        (if forallb (fun i => inrange_o (nth i idx None) (nth i (dshape d) 0%nat)) (seq 0 (ndim W s))
+         then nth (flat_index (dshape d) (map to_nat_o idx)) (src_vals d w) (fill w)
          else fill w).
 Proof. exact Lemmas.frb_nearest. Qed.
 Print Assumptions frb_nearest.
 
-(* dims_sound: a translated coordinate depends on the reference position only through the axes listed in its
-   `dimensions` (as tracked by translate_pixel) ... *)
-Theorem dims_sound : forall e pos pos',
+(* In particular a sample whose linked position is NaN / infinite on some source axis holds NaN / 'not selected'. *)
+Theorem undefined_position_is_fill : forall W s t w bc bs sh vals p i e,
+  frb_core W s t w bc bs = OkArr sh vals ->
+  (p < length (all_indices (grid_shape bs)))%nat -> (i < ndim W s)%nat ->
+  nth_error (get_links W s t) i = Some (Some e) ->
+  eval e (pos_at bs (nth p (all_indices (grid_shape bs)) [])) = None ->
+  nth p vals None = fill w.
+Proof. exact Lemmas.undefined_position_is_fill. Qed.
+Print Assumptions undefined_position_is_fill.
+
+(* dims_sound: a translated coordinate (a number or undefined) depends on the reference position only through the axes
+   listed in its `dimensions` (as tracked by translate_pixel), provided the dimensions reported for a world coordinate
+   of the reference contain the pixel axes it is computed from (wf_exprb; for glue: C15.dependent_axes_covers_forward) ... *)
+Theorem dims_sound : forall e pos pos', wf_exprb e = true ->
   (forall j, In j (dims e) -> pos j = pos' j) -> eval e pos = eval e pos'.
 Proof. exact Lemmas1.dims_sound. Qed.
 Print Assumptions dims_sound.
 
 (* ... hence bounds that match a PIXEL_CACHE key built with the wildcard (any scalar on a scalar-bound axis outside
    the dimensions, everything else equal) give exactly the cached rounded coordinate, validity mask and dimensions. *)
-Theorem dims_sound_bounds : forall e size bs bs',
+Theorem dims_sound_bounds : forall e size bs bs', wf_exprb e = true ->
   cbs_match (bounds_for_cache bs (dims e)) bs' = true -> axis_result e size bs' = axis_result e size bs.
 Proof. exact Lemmas1.dims_sound_bounds. Qed.
 Print Assumptions dims_sound_bounds.
 
 (* The invariant behind the cache: one request keeps "every entry equals the uncached value for every request its
    wildcard key matches", and returns what the uncached function returns. *)
-Theorem cache_step_sound : forall W st r, Inv W st -> fst (step W st r) = frb W r /\ Inv W (snd (step W st r)).
+Theorem cache_step_sound : forall W, wf_world W ->
+  forall st r, Inv W st -> fst (step W st r) = frb W r /\ Inv W (snd (step W st r)).
 Proof. exact Lemmas.step_sound. Qed.
 Print Assumptions cache_step_sound.
 
 (* cache_transparent: for every world (datasets, links), every sequence of requests (any bounds, attribute or
    selection, datasets, broadcast flag, cache ids or none), the run with ARRAY_CACHE / PIXEL_CACHE returns for each
    request what compute_fixed_resolution_buffer returns without cache_id. *)
-Theorem cache_transparent : forall W reqs, run_cached W empty_state reqs = map (frb W) reqs.
+Theorem cache_transparent : forall W, wf_world W -> forall reqs, run_cached W empty_state reqs = map (frb W) reqs.
 Proof. exact Lemmas.cache_transparent. Qed.
 Print Assumptions cache_transparent.
